@@ -1,10 +1,1262 @@
-//! C05 — stub: property not yet claimed.
+//! C05 — compression is used only as negotiated and configured.
+//!
+//! Drives the real `tonic::server::Grpc` (all four shapes, both the builder route and the
+//! `apply_compression_config` route used by generated servers) and the real
+//! `tonic::client::Grpc` (scripted transport) with a raw-bytes codec and the real
+//! gzip/deflate/zstd compressors.  Observed: the negotiation headers, the compressed-flag and
+//! payload *form* of every frame (judged by decompressing independently with flate2 / zstd), what
+//! the handler / caller received, and the status.
+//!
+//! case lines
+//!   srv <u|ss|cs|bi> <d|c> <acc calls> <snd calls> E n hv* A n hv* F n (flag pc msg)* H <reply|fail> n dis M n hv* R rmsg
+//!   cli <u|ss|cs|bi> <snd calls> <acc calls> UE n hv* UA n hv* Q k reqmsg E n hv* HS <none|code> F n (flag pc msg)* TS <none|code>
+//! calls: string over g,d,z (enable gzip/deflate/zstd) and p (pop; route c only), `-` = none.
 use crate::common::*;
+use bytes::{Buf, BufMut, Bytes};
+use http_body_util::BodyExt;
+use std::future::Future;
+use std::io::Read;
+use std::pin::Pin;
+use std::sync::{Arc, Mutex};
+use std::task::{Context, Poll};
+use tonic::codec::{Codec, CompressionEncoding, DecodeBuf, Decoder, EnabledCompressionEncodings, EncodeBuf, Encoder};
+use tonic::{Request, Response, Status, Streaming};
 
-pub fn generate(_tier: &str, _rng: &mut Rng) -> Vec<String> {
-    Vec::new()
+// ---------------------------------------------------------------- codec
+
+#[derive(Clone, Default)]
+struct RawCodec;
+#[derive(Clone, Default)]
+struct RawEnc;
+#[derive(Clone, Default)]
+struct RawDec;
+
+impl Encoder for RawEnc {
+    type Item = Vec<u8>;
+    type Error = Status;
+    fn encode(&mut self, item: Vec<u8>, dst: &mut EncodeBuf<'_>) -> Result<(), Status> {
+        dst.put_slice(&item);
+        Ok(())
+    }
+}
+impl Decoder for RawDec {
+    type Item = Vec<u8>;
+    type Error = Status;
+    fn decode(&mut self, src: &mut DecodeBuf<'_>) -> Result<Option<Vec<u8>>, Status> {
+        let n = src.remaining();
+        Ok(Some(src.copy_to_bytes(n).to_vec()))
+    }
+}
+impl Codec for RawCodec {
+    type Encode = Vec<u8>;
+    type Decode = Vec<u8>;
+    type Encoder = RawEnc;
+    type Decoder = RawDec;
+    fn encoder(&mut self) -> RawEnc {
+        RawEnc
+    }
+    fn decoder(&mut self) -> RawDec {
+        RawDec
+    }
 }
 
-pub fn execute(_case: &str) -> String {
-    "unclaimed".into()
+// ---------------------------------------------------------------- independent (de)compression
+
+fn enc_of(c: char) -> Option<CompressionEncoding> {
+    match c {
+        'g' => Some(CompressionEncoding::Gzip),
+        'd' => Some(CompressionEncoding::Deflate),
+        'z' => Some(CompressionEncoding::Zstd),
+        _ => None,
+    }
+}
+
+fn compress_with(pc: char, msg: &[u8]) -> Vec<u8> {
+    let mut out = Vec::new();
+    match pc {
+        'g' => {
+            flate2::read::GzEncoder::new(msg, flate2::Compression::new(6)).read_to_end(&mut out).unwrap();
+        }
+        'd' => {
+            flate2::read::ZlibEncoder::new(msg, flate2::Compression::new(6)).read_to_end(&mut out).unwrap();
+        }
+        'z' => {
+            out = zstd::encode_all(msg, 3).unwrap();
+        }
+        _ => out.extend_from_slice(msg),
+    }
+    out
+}
+
+/// Form of `payload` relative to the reference message: r(aw), g/d/z (a valid compression of the
+/// reference under that codec, magic number included), x (anything else).
+fn classify(payload: &[u8], reference: &[u8]) -> char {
+    if payload == reference {
+        return 'r';
+    }
+    if payload.len() >= 2 && payload[0] == 0x1f && payload[1] == 0x8b {
+        let mut out = Vec::new();
+        if flate2::read::GzDecoder::new(payload).read_to_end(&mut out).is_ok() && out == reference {
+            return 'g';
+        }
+    }
+    if payload.len() >= 2 && payload[0] & 0x0f == 8 && (u16::from(payload[0]) * 256 + u16::from(payload[1])) % 31 == 0 {
+        let mut out = Vec::new();
+        if flate2::read::ZlibDecoder::new(payload).read_to_end(&mut out).is_ok() && out == reference {
+            return 'd';
+        }
+    }
+    if payload.len() >= 4 && payload[..4] == [0x28, 0xb5, 0x2f, 0xfd] {
+        if let Ok(out) = zstd::decode_all(payload) {
+            if out == reference {
+                return 'z';
+            }
+        }
+    }
+    'x'
+}
+
+fn wire_frame(flag: u8, payload: &[u8]) -> Vec<u8> {
+    let mut v = Vec::with_capacity(5 + payload.len());
+    v.push(flag);
+    v.put_u32(payload.len() as u32);
+    v.extend_from_slice(payload);
+    v
+}
+
+/// Split a body into gRPC frames; `None` if it is not a whole number of frames.
+fn parse_frames(mut b: &[u8]) -> Option<Vec<(u8, Vec<u8>)>> {
+    let mut out = Vec::new();
+    while !b.is_empty() {
+        if b.len() < 5 {
+            return None;
+        }
+        let flag = b[0];
+        let len = u32::from_be_bytes([b[1], b[2], b[3], b[4]]) as usize;
+        if b.len() < 5 + len {
+            return None;
+        }
+        out.push((flag, b[5..5 + len].to_vec()));
+        b = &b[5 + len..];
+    }
+    Some(out)
+}
+
+fn err_class(st: &Status) -> &'static str {
+    let m = st.message();
+    if st.code() == tonic::Code::Ok {
+        "-"
+    } else if m.starts_with("protocol error: received message with compressed-flag but no grpc-encoding") {
+        "flag-no-enc"
+    } else if m.starts_with("protocol error: received message with invalid compression flag") {
+        "bad-flag"
+    } else if m == "Missing request message." || m == "Missing response message." {
+        "missing"
+    } else if m.starts_with("Error decompressing") {
+        "decompress"
+    } else if m.starts_with("Content is compressed with") {
+        "unsupported"
+    } else if m == "h" {
+        "handler"
+    } else if m == "p" {
+        "peer"
+    } else {
+        "other"
+    }
+}
+
+fn item_err(st: &Status) -> String {
+    format!("e{}:{}", st.code() as i32, err_class(st))
+}
+
+fn header_vals(h: &http::HeaderMap, name: &str) -> String {
+    let vs: Vec<String> = h.get_all(name).iter().map(|v| hex(v.as_bytes())).collect();
+    if vs.is_empty() {
+        "0".into()
+    } else {
+        format!("{} {}", vs.len(), vs.join(" "))
+    }
+}
+
+thread_local! {
+    static RT: tokio::runtime::Runtime = tokio::runtime::Builder::new_current_thread().enable_all().build().unwrap();
+}
+
+// ---------------------------------------------------------------- case parsing
+
+struct Cur<'a> {
+    t: Vec<&'a str>,
+    i: usize,
+}
+impl<'a> Cur<'a> {
+    fn next(&mut self) -> Option<&'a str> {
+        let r = self.t.get(self.i).copied();
+        self.i += 1;
+        r
+    }
+    fn lit(&mut self, s: &str) -> Option<()> {
+        if self.next()? == s {
+            Some(())
+        } else {
+            None
+        }
+    }
+    fn num(&mut self) -> Option<usize> {
+        self.next()?.parse().ok()
+    }
+    fn hexs(&mut self, marker: &str) -> Option<Vec<Vec<u8>>> {
+        self.lit(marker)?;
+        let n = self.num()?;
+        (0..n).map(|_| unhex(self.next()?)).collect()
+    }
+    fn frames(&mut self) -> Option<Vec<(u8, char, Vec<u8>)>> {
+        self.lit("F")?;
+        let n = self.num()?;
+        let mut v = Vec::new();
+        for _ in 0..n {
+            let flag: u8 = self.next()?.parse().ok()?;
+            let pc = self.next()?.chars().next()?;
+            let msg = unhex(self.next()?)?;
+            v.push((flag, pc, msg));
+        }
+        Some(v)
+    }
+    fn optcode(&mut self, marker: &str) -> Option<Option<i32>> {
+        self.lit(marker)?;
+        let t = self.next()?;
+        if t == "none" {
+            Some(None)
+        } else {
+            Some(Some(t.parse().ok()?))
+        }
+    }
+}
+
+fn enabled_from_calls(calls: &str) -> EnabledCompressionEncodings {
+    let mut e = EnabledCompressionEncodings::default();
+    for c in calls.chars() {
+        match c {
+            'p' => {
+                e.pop();
+            }
+            '-' => {}
+            c => e.enable(enc_of(c).expect("call letter")),
+        }
+    }
+    e
+}
+
+// ---------------------------------------------------------------- server side
+
+#[derive(Default)]
+struct Rec {
+    called: bool,
+    saw: Vec<String>,
+}
+
+#[derive(Clone)]
+struct Script {
+    rec: Arc<Mutex<Rec>>,
+    reqmsgs: Arc<Vec<Vec<u8>>>,
+    reply: bool,
+    n: usize,
+    disable: bool,
+    md: Arc<Vec<Vec<u8>>>,
+    rmsg: Arc<Vec<u8>>,
+}
+
+impl Script {
+    fn saw_msg(&self, idx: usize, got: &[u8]) {
+        let reference: &[u8] = self.reqmsgs.get(idx).map(|v| v.as_slice()).unwrap_or(&[]);
+        self.rec.lock().unwrap().saw.push(format!("ok:{}", classify(got, reference)));
+    }
+    fn finish<T>(&self, body: T) -> Result<Response<T>, Status> {
+        if !self.reply {
+            return Err(Status::new(tonic::Code::from(self.n as i32), "h"));
+        }
+        let mut r = Response::new(body);
+        for v in self.md.iter() {
+            let mv = tonic::metadata::MetadataValue::try_from(v.as_slice()).map_err(|_| Status::new(tonic::Code::Unknown, "bad-md"))?;
+            r.metadata_mut().append("grpc-encoding", mv);
+        }
+        if self.disable {
+            r.disable_compression();
+        }
+        Ok(r)
+    }
+}
+
+type BoxFut<T> = Pin<Box<dyn Future<Output = T> + Send>>;
+type MsgStream = tokio_stream::Iter<std::vec::IntoIter<Result<Vec<u8>, Status>>>;
+
+struct UnarySvc(Script);
+impl tower_service::Service<Request<Vec<u8>>> for UnarySvc {
+    type Response = Response<Vec<u8>>;
+    type Error = Status;
+    type Future = BoxFut<Result<Response<Vec<u8>>, Status>>;
+    fn poll_ready(&mut self, _: &mut Context<'_>) -> Poll<Result<(), Status>> {
+        Poll::Ready(Ok(()))
+    }
+    fn call(&mut self, req: Request<Vec<u8>>) -> Self::Future {
+        let s = self.0.clone();
+        Box::pin(async move {
+            s.rec.lock().unwrap().called = true;
+            s.saw_msg(0, req.get_ref());
+            s.finish((*s.rmsg).clone())
+        })
+    }
+}
+
+struct SStreamSvc(Script);
+impl tower_service::Service<Request<Vec<u8>>> for SStreamSvc {
+    type Response = Response<MsgStream>;
+    type Error = Status;
+    type Future = BoxFut<Result<Response<MsgStream>, Status>>;
+    fn poll_ready(&mut self, _: &mut Context<'_>) -> Poll<Result<(), Status>> {
+        Poll::Ready(Ok(()))
+    }
+    fn call(&mut self, req: Request<Vec<u8>>) -> Self::Future {
+        let s = self.0.clone();
+        Box::pin(async move {
+            s.rec.lock().unwrap().called = true;
+            s.saw_msg(0, req.get_ref());
+            let items: Vec<Result<Vec<u8>, Status>> = (0..s.n).map(|_| Ok((*s.rmsg).clone())).collect();
+            s.finish(tokio_stream::iter(items))
+        })
+    }
+}
+
+async fn read_all(s: &Script, mut st: Streaming<Vec<u8>>) -> Result<(), Status> {
+    let mut idx = 0;
+    loop {
+        match st.message().await {
+            Ok(Some(m)) => {
+                s.saw_msg(idx, &m);
+                idx += 1;
+            }
+            Ok(None) => return Ok(()),
+            Err(e) => {
+                s.rec.lock().unwrap().saw.push(item_err(&e));
+                return Err(e);
+            }
+        }
+    }
+}
+
+struct CStreamSvc(Script);
+impl tower_service::Service<Request<Streaming<Vec<u8>>>> for CStreamSvc {
+    type Response = Response<Vec<u8>>;
+    type Error = Status;
+    type Future = BoxFut<Result<Response<Vec<u8>>, Status>>;
+    fn poll_ready(&mut self, _: &mut Context<'_>) -> Poll<Result<(), Status>> {
+        Poll::Ready(Ok(()))
+    }
+    fn call(&mut self, req: Request<Streaming<Vec<u8>>>) -> Self::Future {
+        let s = self.0.clone();
+        Box::pin(async move {
+            s.rec.lock().unwrap().called = true;
+            read_all(&s, req.into_inner()).await?;
+            s.finish((*s.rmsg).clone())
+        })
+    }
+}
+
+struct BidiSvc(Script);
+impl tower_service::Service<Request<Streaming<Vec<u8>>>> for BidiSvc {
+    type Response = Response<MsgStream>;
+    type Error = Status;
+    type Future = BoxFut<Result<Response<MsgStream>, Status>>;
+    fn poll_ready(&mut self, _: &mut Context<'_>) -> Poll<Result<(), Status>> {
+        Poll::Ready(Ok(()))
+    }
+    fn call(&mut self, req: Request<Streaming<Vec<u8>>>) -> Self::Future {
+        let s = self.0.clone();
+        Box::pin(async move {
+            s.rec.lock().unwrap().called = true;
+            read_all(&s, req.into_inner()).await?;
+            let items: Vec<Result<Vec<u8>, Status>> = (0..s.n).map(|_| Ok((*s.rmsg).clone())).collect();
+            s.finish(tokio_stream::iter(items))
+        })
+    }
+}
+
+fn run_srv(c: &mut Cur<'_>) -> Option<String> {
+    let shape = c.next()?;
+    let route = c.next()?;
+    let acc = c.next()?;
+    let snd = c.next()?;
+    let enc_vals = c.hexs("E")?;
+    let acc_vals = c.hexs("A")?;
+    let frames = c.frames()?;
+    c.lit("H")?;
+    let reply = match c.next()? {
+        "reply" => true,
+        "fail" => false,
+        _ => return None,
+    };
+    let n = c.num()?;
+    let disable = c.num()? != 0;
+    let md = c.hexs("M")?;
+    c.lit("R")?;
+    let rmsg = unhex(c.next()?)?;
+
+    let mut grpc = tonic::server::Grpc::new(RawCodec);
+    match route {
+        "d" => {
+            for ch in acc.chars().filter(|c| *c != '-') {
+                grpc = grpc.accept_compressed(enc_of(ch)?);
+            }
+            for ch in snd.chars().filter(|c| *c != '-') {
+                grpc = grpc.send_compressed(enc_of(ch)?);
+            }
+        }
+        "c" => {
+            grpc = grpc.apply_compression_config(enabled_from_calls(acc), enabled_from_calls(snd));
+        }
+        _ => return None,
+    }
+
+    let mut body = Vec::new();
+    for (flag, pc, msg) in &frames {
+        body.extend_from_slice(&wire_frame(*flag, &compress_with(*pc, msg)));
+    }
+    let mut req = http::Request::builder()
+        .method("POST")
+        .uri("http://h/svc/M")
+        .version(http::Version::HTTP_2)
+        .header("content-type", "application/grpc")
+        .header("te", "trailers");
+    for v in &enc_vals {
+        match http::HeaderValue::from_bytes(v) {
+            Ok(hv) => req = req.header("grpc-encoding", hv),
+            Err(_) => return Some("not-a-header-value".into()),
+        }
+    }
+    for v in &acc_vals {
+        match http::HeaderValue::from_bytes(v) {
+            Ok(hv) => req = req.header("grpc-accept-encoding", hv),
+            Err(_) => return Some("not-a-header-value".into()),
+        }
+    }
+    let req = req.body(http_body_util::Full::new(Bytes::from(body))).ok()?;
+
+    let rec = Arc::new(Mutex::new(Rec::default()));
+    let script = Script {
+        rec: rec.clone(),
+        reqmsgs: Arc::new(frames.iter().map(|f| f.2.clone()).collect()),
+        reply,
+        n,
+        disable,
+        md: Arc::new(md),
+        rmsg: Arc::new(rmsg.clone()),
+    };
+
+    let (parts, data, trailers) = RT.with(|rt| {
+        rt.block_on(async move {
+            let resp = match shape {
+                "u" => grpc.unary(UnarySvc(script), req).await,
+                "ss" => grpc.server_streaming(SStreamSvc(script), req).await,
+                "cs" => grpc.client_streaming(CStreamSvc(script), req).await,
+                _ => grpc.streaming(BidiSvc(script), req).await,
+            };
+            let (parts, mut body) = resp.into_parts();
+            let mut data = Vec::new();
+            let mut trailers: Option<http::HeaderMap> = None;
+            let mut after_trailers = false;
+            while let Some(fr) = body.frame().await {
+                match fr {
+                    Ok(f) => {
+                        if f.is_data() {
+                            if trailers.is_some() {
+                                after_trailers = true;
+                            }
+                            data.extend_from_slice(&f.into_data().unwrap());
+                        } else if let Ok(t) = f.into_trailers() {
+                            trailers = Some(t);
+                        }
+                    }
+                    Err(_) => break,
+                }
+            }
+            if after_trailers {
+                data.clear();
+                data.push(0xff);
+            }
+            (parts, data, trailers)
+        })
+    });
+
+    let rec = rec.lock().unwrap();
+    let (wh, st) = if let Some(st) = Status::from_header_map(&parts.headers) {
+        ("hdr", Some(st))
+    } else if let Some(st) = trailers.as_ref().and_then(Status::from_header_map) {
+        ("trl", Some(st))
+    } else {
+        ("absent", None)
+    };
+    let st_tok = match &st {
+        Some(s) => format!("{} {} {}", wh, s.code() as i32, err_class(s)),
+        None => "absent 0 -".to_string(),
+    };
+    let fr_tok = match parse_frames(&data) {
+        Some(fs) => {
+            let v: Vec<String> = fs.iter().map(|(f, p)| format!("{}:{}", f, classify(p, &rmsg))).collect();
+            if v.is_empty() {
+                "0".to_string()
+            } else {
+                format!("{} {}", v.len(), v.join(" "))
+            }
+        }
+        None => "malformed".into(),
+    };
+    let saw = if rec.saw.is_empty() { "0".to_string() } else { format!("{} {}", rec.saw.len(), rec.saw.join(" ")) };
+    Some(format!(
+        "called {} saw {} enc {} acc {} st {} fr {}",
+        rec.called as u8,
+        saw,
+        header_vals(&parts.headers, "grpc-encoding"),
+        header_vals(&parts.headers, "grpc-accept-encoding"),
+        st_tok,
+        fr_tok
+    ))
+}
+
+// ---------------------------------------------------------------- client side
+
+#[derive(Default)]
+struct Captured {
+    headers: http::HeaderMap,
+    body: Vec<u8>,
+}
+
+type RespBody = http_body_util::StreamBody<tokio_stream::Iter<std::vec::IntoIter<Result<http_body::Frame<Bytes>, Status>>>>;
+
+#[derive(Clone)]
+struct Transport {
+    cap: Arc<Mutex<Captured>>,
+    enc_vals: Arc<Vec<Vec<u8>>>,
+    hdr_status: Option<i32>,
+    body: Arc<Vec<u8>>,
+    trl_status: Option<i32>,
+}
+
+impl tower_service::Service<http::Request<tonic::body::Body>> for Transport {
+    type Response = http::Response<RespBody>;
+    type Error = Status;
+    type Future = BoxFut<Result<http::Response<RespBody>, Status>>;
+    fn poll_ready(&mut self, _: &mut Context<'_>) -> Poll<Result<(), Status>> {
+        Poll::Ready(Ok(()))
+    }
+    fn call(&mut self, req: http::Request<tonic::body::Body>) -> Self::Future {
+        let t = self.clone();
+        Box::pin(async move {
+            let (parts, mut body) = req.into_parts();
+            let mut data = Vec::new();
+            while let Some(fr) = body.frame().await {
+                if let Ok(f) = fr {
+                    if let Ok(d) = f.into_data() {
+                        data.extend_from_slice(&d);
+                    }
+                } else {
+                    break;
+                }
+            }
+            {
+                let mut c = t.cap.lock().unwrap();
+                c.headers = parts.headers;
+                c.body = data;
+            }
+            let mut frames: Vec<Result<http_body::Frame<Bytes>, Status>> = Vec::new();
+            if !t.body.is_empty() {
+                frames.push(Ok(http_body::Frame::data(Bytes::from((*t.body).clone()))));
+            }
+            if let Some(code) = t.trl_status {
+                let mut h = http::HeaderMap::new();
+                h.insert("grpc-status", http::HeaderValue::from_str(&code.to_string()).unwrap());
+                if code != 0 {
+                    h.insert("grpc-message", http::HeaderValue::from_static("p"));
+                }
+                frames.push(Ok(http_body::Frame::trailers(h)));
+            }
+            let mut resp = http::Response::builder().status(200).version(http::Version::HTTP_2).header("content-type", "application/grpc");
+            for v in t.enc_vals.iter() {
+                resp = resp.header("grpc-encoding", http::HeaderValue::from_bytes(v).unwrap());
+            }
+            if let Some(code) = t.hdr_status {
+                resp = resp.header("grpc-status", code.to_string());
+                if code != 0 {
+                    resp = resp.header("grpc-message", "p");
+                }
+            }
+            Ok(resp.body(http_body_util::StreamBody::new(tokio_stream::iter(frames))).unwrap())
+        })
+    }
+}
+
+fn run_cli(c: &mut Cur<'_>) -> Option<String> {
+    let shape = c.next()?;
+    let snd = c.next()?;
+    let acc = c.next()?;
+    let umd_enc = c.hexs("UE")?;
+    let umd_acc = c.hexs("UA")?;
+    c.lit("Q")?;
+    let k = c.num()?;
+    let reqmsg = unhex(c.next()?)?;
+    let enc_vals = c.hexs("E")?;
+    let hdr_status = c.optcode("HS")?;
+    let frames = c.frames()?;
+    let trl_status = c.optcode("TS")?;
+
+    for v in &enc_vals {
+        if http::HeaderValue::from_bytes(v).is_err() {
+            return Some("not-a-header-value".into());
+        }
+    }
+    let mut body = Vec::new();
+    for (flag, pc, msg) in &frames {
+        body.extend_from_slice(&wire_frame(*flag, &compress_with(*pc, msg)));
+    }
+    let cap = Arc::new(Mutex::new(Captured::default()));
+    let transport = Transport { cap: cap.clone(), enc_vals: Arc::new(enc_vals), hdr_status, body: Arc::new(body), trl_status };
+    let mut grpc = tonic::client::Grpc::new(transport);
+    for ch in snd.chars().filter(|c| *c != '-') {
+        grpc = grpc.send_compressed(enc_of(ch)?);
+    }
+    for ch in acc.chars().filter(|c| *c != '-') {
+        grpc = grpc.accept_compressed(enc_of(ch)?);
+    }
+    fn with_md<T>(mut r: Request<T>, e: &[Vec<u8>], a: &[Vec<u8>]) -> Option<Request<T>> {
+        for v in e {
+            r.metadata_mut().append("grpc-encoding", tonic::metadata::MetadataValue::try_from(v.as_slice()).ok()?);
+        }
+        for v in a {
+            r.metadata_mut().append("grpc-accept-encoding", tonic::metadata::MetadataValue::try_from(v.as_slice()).ok()?);
+        }
+        Some(r)
+    }
+    let path = http::uri::PathAndQuery::from_static("/svc/M");
+    let refs: Vec<Vec<u8>> = frames.iter().map(|f| f.2.clone()).collect();
+    let item_ok = |idx: usize, got: &[u8]| -> String {
+        let reference: &[u8] = refs.get(idx).map(|v| v.as_slice()).unwrap_or(&[]);
+        format!("ok:{}", classify(got, reference))
+    };
+    let eacc = |st: &Status| -> Vec<String> { st.metadata().get_all("grpc-accept-encoding").iter().map(|v| hex(v.as_encoded_bytes())).collect() };
+
+    let (items, errs): (Vec<String>, Vec<String>) = match RT.with(|rt| {
+        rt.block_on(async {
+            let mut items: Vec<String> = Vec::new();
+            let mut errs: Vec<String> = Vec::new();
+            if grpc.ready().await.is_err() {
+                return None;
+            }
+            async fn drain(
+                r: Result<Response<Streaming<Vec<u8>>>, Status>,
+                items: &mut Vec<String>,
+                errs: &mut Vec<String>,
+                item_ok: &dyn Fn(usize, &[u8]) -> String,
+                eacc: &dyn Fn(&Status) -> Vec<String>,
+            ) {
+                match r {
+                    Err(e) => {
+                        items.push(item_err(&e));
+                        errs.extend(eacc(&e));
+                    }
+                    Ok(resp) => {
+                        let mut st = resp.into_inner();
+                        let mut idx = 0;
+                        loop {
+                            match st.message().await {
+                                Ok(Some(m)) => {
+                                    items.push(item_ok(idx, &m));
+                                    idx += 1;
+                                }
+                                Ok(None) => break,
+                                Err(e) => {
+                                    items.push(item_err(&e));
+                                    errs.extend(eacc(&e));
+                                    break;
+                                }
+                            }
+                        }
+                    }
+                }
+            }
+            match shape {
+                "u" => {
+                    let r = with_md(Request::new(reqmsg.clone()), &umd_enc, &umd_acc)?;
+                    match grpc.unary(r, path, RawCodec).await {
+                        Ok(resp) => items.push(item_ok(0, resp.get_ref())),
+                        Err(e) => {
+                            items.push(item_err(&e));
+                            errs.extend(eacc(&e));
+                        }
+                    }
+                }
+                "cs" => {
+                    let msgs: Vec<Vec<u8>> = (0..k).map(|_| reqmsg.clone()).collect();
+                    let r = with_md(Request::new(tokio_stream::iter(msgs)), &umd_enc, &umd_acc)?;
+                    match grpc.client_streaming(r, path, RawCodec).await {
+                        Ok(resp) => items.push(item_ok(0, resp.get_ref())),
+                        Err(e) => {
+                            items.push(item_err(&e));
+                            errs.extend(eacc(&e));
+                        }
+                    }
+                }
+                "ss" => {
+                    let r = with_md(Request::new(reqmsg.clone()), &umd_enc, &umd_acc)?;
+                    let res = grpc.server_streaming(r, path, RawCodec).await;
+                    drain(res, &mut items, &mut errs, &item_ok, &eacc).await;
+                }
+                _ => {
+                    let msgs: Vec<Vec<u8>> = (0..k).map(|_| reqmsg.clone()).collect();
+                    let r = with_md(Request::new(tokio_stream::iter(msgs)), &umd_enc, &umd_acc)?;
+                    let res = grpc.streaming(r, path, RawCodec).await;
+                    drain(res, &mut items, &mut errs, &item_ok, &eacc).await;
+                }
+            }
+            Some((items, errs))
+        })
+    }) {
+        Some(x) => x,
+        None => return Some("bad-md".into()),
+    };
+
+    let cap = cap.lock().unwrap();
+    let fr_tok = match parse_frames(&cap.body) {
+        Some(fs) => {
+            let v: Vec<String> = fs.iter().map(|(f, p)| format!("{}:{}", f, classify(p, &reqmsg))).collect();
+            if v.is_empty() {
+                "0".to_string()
+            } else {
+                format!("{} {}", v.len(), v.join(" "))
+            }
+        }
+        None => "malformed".into(),
+    };
+    let list = |v: &Vec<String>| if v.is_empty() { "0".to_string() } else { format!("{} {}", v.len(), v.join(" ")) };
+    Some(format!(
+        "enc {} acc {} fr {} res {} eacc {}",
+        header_vals(&cap.headers, "grpc-encoding"),
+        header_vals(&cap.headers, "grpc-accept-encoding"),
+        fr_tok,
+        list(&items),
+        list(&errs)
+    ))
+}
+
+pub fn execute(case: &str) -> String {
+    let mut c = Cur { t: case.split(' ').filter(|s| !s.is_empty()).collect(), i: 0 };
+    let r = match c.next() {
+        Some("srv") => run_srv(&mut c),
+        Some("cli") => run_cli(&mut c),
+        _ => None,
+    };
+    r.unwrap_or_else(|| "bad-case".into())
+}
+
+// ---------------------------------------------------------------- generation
+
+fn hexlist(marker: &str, vals: &[Vec<u8>]) -> String {
+    let mut s = format!("{} {}", marker, vals.len());
+    for v in vals {
+        s.push(' ');
+        s.push_str(&hex(v));
+    }
+    s
+}
+
+#[derive(Clone)]
+struct SrvCase {
+    shape: &'static str,
+    route: &'static str,
+    acc: String,
+    snd: String,
+    enc: Vec<Vec<u8>>,
+    accv: Vec<Vec<u8>>,
+    frames: Vec<(u8, char, Vec<u8>)>,
+    reply: bool,
+    n: usize,
+    dis: bool,
+    md: Vec<Vec<u8>>,
+    rmsg: Vec<u8>,
+}
+
+fn frames_tok(frames: &[(u8, char, Vec<u8>)]) -> String {
+    let mut s = format!("F {}", frames.len());
+    for (f, pc, m) in frames {
+        s.push_str(&format!(" {} {} {}", f, pc, hex(m)));
+    }
+    s
+}
+
+impl SrvCase {
+    fn line(&self) -> String {
+        format!(
+            "srv {} {} {} {} {} {} {} H {} {} {} {} R {}",
+            self.shape,
+            self.route,
+            self.acc,
+            self.snd,
+            hexlist("E", &self.enc),
+            hexlist("A", &self.accv),
+            frames_tok(&self.frames),
+            if self.reply { "reply" } else { "fail" },
+            self.n,
+            self.dis as u8,
+            hexlist("M", &self.md),
+            hex(&self.rmsg)
+        )
+    }
+    fn plain(shape: &'static str, acc: &str, snd: &str) -> SrvCase {
+        SrvCase {
+            shape,
+            route: "d",
+            acc: acc.into(),
+            snd: snd.into(),
+            enc: vec![],
+            accv: vec![],
+            frames: vec![(0, 'r', b"hello request".to_vec())],
+            reply: true,
+            n: 1,
+            dis: false,
+            md: vec![],
+            rmsg: b"hello response hello response".to_vec(),
+        }
+    }
+}
+
+const SHAPES: [&str; 4] = ["u", "ss", "cs", "bi"];
+
+/// all 16 ordered subsets of {g,d,z}
+fn ordered_subsets() -> Vec<String> {
+    let mut v = vec!["-".to_string()];
+    let l = ['g', 'd', 'z'];
+    for a in l {
+        v.push(a.to_string());
+        for b in l {
+            if b != a {
+                v.push(format!("{a}{b}"));
+                for c in l {
+                    if c != a && c != b {
+                        v.push(format!("{a}{b}{c}"));
+                    }
+                }
+            }
+        }
+    }
+    v
+}
+
+fn calls(rng: &mut Rng, allow_pop: bool) -> String {
+    match rng.below(10) {
+        0..=5 => rng.pick(&ordered_subsets()).clone(),
+        6 | 7 => {
+            // with repeats
+            let n = rng.range(1, 6);
+            (0..n).map(|_| *rng.pick(&['g', 'd', 'z'])).collect()
+        }
+        _ => {
+            let n = rng.range(1, 7);
+            let s: String = (0..n).map(|_| if allow_pop && rng.chance(1, 3) { 'p' } else { *rng.pick(&['g', 'd', 'z']) }).collect();
+            s
+        }
+    }
+}
+
+const TOKENS: [&str; 22] = [
+    "gzip", "deflate", "zstd", "identity", "gzip", "zstd", "deflate", "GZIP", "Gzip", "gzipp", "gzi", "", "snappy", "br", "*", "gzip;q=1.0", "x-gzip", "zstd ", "de flate",
+    "identity;q=0", "g", "zstdd",
+];
+const SEPS: [&str; 8] = [",", ",", ", ", " ,", " , ", ",\t", "\t,\t", ",  "];
+
+/// a `grpc-accept-encoding`-like list value
+fn list_value(rng: &mut Rng) -> Vec<u8> {
+    let n = match rng.below(8) {
+        0 => 0,
+        1 | 2 => 1,
+        3 | 4 => 2,
+        5 => 3,
+        6 => 4,
+        _ => rng.range(5, 9),
+    } as usize;
+    let mut v: Vec<u8> = Vec::new();
+    if rng.chance(1, 6) {
+        v.extend_from_slice(rng.pick(&[" ", "\t", ",", ", ", "  "]).as_bytes());
+    }
+    for i in 0..n {
+        if i > 0 {
+            v.extend_from_slice(rng.pick(&SEPS).as_bytes());
+        }
+        v.extend_from_slice(rng.pick(&TOKENS).as_bytes());
+    }
+    if rng.chance(1, 6) {
+        v.extend_from_slice(rng.pick(&[" ", "\t", ",", " ,", "  "]).as_bytes());
+    }
+    // non-ASCII / odd bytes
+    if rng.chance(1, 8) {
+        let extra: &[u8] = match rng.below(6) {
+            0 => b"\xc3\xa9",
+            1 => b"\xa0",
+            2 => b"\x85",
+            3 => b"\xe2\x80\x83",
+            4 => b"\x80",
+            _ => b"\xff",
+        };
+        let pos = rng.below(v.len() as u64 + 1) as usize;
+        let tail = v.split_off(pos);
+        v.extend_from_slice(extra);
+        v.extend(tail);
+    }
+    if rng.chance(1, 40) {
+        // an arbitrary legal header byte somewhere
+        let b = loop {
+            let b = rng.next() as u8;
+            if (b >= 32 && b != 127) || b == 9 {
+                break b;
+            }
+        };
+        let pos = rng.below(v.len() as u64 + 1) as usize;
+        v.insert(pos, b);
+    }
+    v
+}
+
+/// a `grpc-encoding`-like single value
+fn enc_value(rng: &mut Rng) -> Vec<u8> {
+    match rng.below(12) {
+        0..=5 => rng.pick(&["gzip", "deflate", "zstd", "identity"]).as_bytes().to_vec(),
+        6 | 7 => rng
+            .pick(&["", "Gzip", "GZIP", "gzip ", " gzip", "gzip,deflate", "identity,gzip", "gzip,identity", "Identity", "snappy", "zst", "zstdd", "deflate\t", "g", "identity ", "none", "x"])
+            .as_bytes()
+            .to_vec(),
+        8 => {
+            let mut v = rng.pick(&["gzip", "deflate", "zstd", "identity"]).as_bytes().to_vec();
+            let extras: [&[u8]; 4] = [b"\xc3\xa9", b"\xa0", b"\xff", b"\x80"];
+            let e: &[u8] = *rng.pick(&extras[..]);
+            v.extend_from_slice(e);
+            v
+        }
+        9 => list_value(rng),
+        _ => {
+            // one byte off a real name
+            let mut v = rng.pick(&["gzip", "deflate", "zstd", "identity"]).as_bytes().to_vec();
+            let i = rng.below(v.len() as u64) as usize;
+            match rng.below(3) {
+                0 => v[i] ^= 0x20,
+                1 => {
+                    v.remove(i);
+                }
+                _ => v.insert(i, v[i]),
+            }
+            v
+        }
+    }
+}
+
+fn message(rng: &mut Rng) -> Vec<u8> {
+    let n = match rng.below(8) {
+        0 => 0,
+        1 => 1,
+        2 => 5,
+        3 => 31,
+        4 => 300,
+        _ => rng.range(2, 64),
+    } as usize;
+    // never starts like a gzip / zlib / zstd stream: first byte 0
+    let mut m = vec![0u8; n];
+    for (i, b) in m.iter_mut().enumerate().skip(1) {
+        *b = if i % 3 == 0 { rng.next() as u8 } else { b'a' + (i % 7) as u8 };
+    }
+    m
+}
+
+/// frames for a receiver whose negotiated encoding letter is unknown to the generator: mostly
+/// well-formed for `hint`, boundary-biased on the flag byte
+fn req_frames(rng: &mut Rng, hint: char, max: u64) -> Vec<(u8, char, Vec<u8>)> {
+    let n = match rng.below(10) {
+        0 => 0,
+        1..=6 => 1,
+        7 | 8 => 2.min(max),
+        _ => 3.min(max),
+    };
+    (0..n)
+        .map(|_| {
+            let (flag, pc) = match rng.below(14) {
+                0..=4 => (0u8, 'r'),
+                5..=8 => (1u8, if hint == '-' { *rng.pick(&['g', 'd', 'z', 'r']) } else { hint }),
+                9 => (1, *rng.pick(&['g', 'd', 'z'])),
+                10 => (0, *rng.pick(&['g', 'd', 'z'])),
+                11 => (*rng.pick(&[2u8, 3, 128, 129, 254, 255]), *rng.pick(&['r', 'g'])),
+                12 => (1, 'r'),
+                _ => (rng.next() as u8, 'r'),
+            };
+            let mut m = message(rng);
+            if flag == 1 && pc == 'r' && m.is_empty() {
+                m = vec![0, 1, 2];
+            }
+            (flag, pc, m)
+        })
+        .collect()
+}
+
+fn srv_random(rng: &mut Rng) -> SrvCase {
+    let shape = *rng.pick(&SHAPES);
+    let route = if rng.chance(1, 3) { "c" } else { "d" };
+    let acc = calls(rng, route == "c");
+    let snd = calls(rng, route == "c");
+    let enc: Vec<Vec<u8>> = match rng.below(10) {
+        0..=2 => vec![],
+        3..=8 => vec![enc_value(rng)],
+        _ => vec![enc_value(rng), enc_value(rng)],
+    };
+    let accv: Vec<Vec<u8>> = match rng.below(12) {
+        0 => vec![],
+        1..=9 => vec![list_value(rng)],
+        10 => vec![list_value(rng), list_value(rng)],
+        _ => vec![list_value(rng), list_value(rng), list_value(rng)],
+    };
+    let hint = enc.first().and_then(|v| match v.as_slice() {
+        b"gzip" => Some('g'),
+        b"deflate" => Some('d'),
+        b"zstd" => Some('z'),
+        _ => None,
+    });
+    let frames = req_frames(rng, hint.unwrap_or('-'), 3);
+    let reply = !rng.chance(1, 8);
+    let n = if reply { rng.below(4) as usize } else { rng.range(1, 16) as usize };
+    SrvCase {
+        shape,
+        route,
+        acc,
+        snd,
+        enc,
+        accv,
+        frames,
+        reply,
+        n,
+        dis: rng.chance(1, 4),
+        md: vec![],
+        rmsg: message(rng),
+    }
+}
+
+fn cli_line(
+    shape: &str,
+    snd: &str,
+    acc: &str,
+    ue: &[Vec<u8>],
+    ua: &[Vec<u8>],
+    k: usize,
+    reqmsg: &[u8],
+    enc: &[Vec<u8>],
+    hs: Option<i32>,
+    frames: &[(u8, char, Vec<u8>)],
+    ts: Option<i32>,
+) -> String {
+    let oc = |o: Option<i32>| o.map(|c| c.to_string()).unwrap_or_else(|| "none".into());
+    format!(
+        "cli {} {} {} {} {} Q {} {} {} HS {} {} TS {}",
+        shape,
+        snd,
+        acc,
+        hexlist("UE", ue),
+        hexlist("UA", ua),
+        k,
+        hex(reqmsg),
+        hexlist("E", enc),
+        oc(hs),
+        frames_tok(frames),
+        oc(ts)
+    )
+}
+
+fn cli_random(rng: &mut Rng) -> String {
+    let shape = *rng.pick(&SHAPES);
+    let snd: String = match rng.below(6) {
+        0 | 1 => "-".into(),
+        2 | 3 => rng.pick(&['g', 'd', 'z']).to_string(),
+        _ => (0..rng.range(2, 4)).map(|_| *rng.pick(&['g', 'd', 'z'])).collect(),
+    };
+    let acc = calls(rng, false);
+    let enc: Vec<Vec<u8>> = match rng.below(10) {
+        0..=2 => vec![],
+        3..=8 => vec![enc_value(rng)],
+        _ => vec![enc_value(rng), enc_value(rng)],
+    };
+    let hint = enc.first().and_then(|v| match v.as_slice() {
+        b"gzip" => Some('g'),
+        b"deflate" => Some('d'),
+        b"zstd" => Some('z'),
+        _ => None,
+    });
+    let frames = req_frames(rng, hint.unwrap_or('-'), 3);
+    let hs = match rng.below(12) {
+        0 => Some(0),
+        1 => Some(rng.range(1, 16) as i32),
+        _ => None,
+    };
+    let ts = match rng.below(8) {
+        0 => None,
+        1 => Some(rng.range(1, 16) as i32),
+        _ => Some(0),
+    };
+    cli_line(shape, &snd, &acc, &[], &[], rng.below(4) as usize, &message(rng), &enc, hs, &frames, ts)
+}
+
+pub fn generate(tier: &str, rng: &mut Rng) -> Vec<String> {
+    let thorough = tier == "thorough";
+    let mut out: Vec<String> = Vec::new();
+
+    // ---- corpus: DESIGN §5.4 witness and neighbours (first known token not enabled for sending)
+    for (snd, av) in [("g", "zstd,gzip"), ("g", "zstd"), ("d", "gzip, deflate"), ("gz", "deflate,zstd,gzip"), ("z", "gzip,deflate"), ("g", "deflate , gzip")] {
+        for shape in SHAPES {
+            let mut c = SrvCase::plain(shape, "-", snd);
+            c.accv = vec![av.as_bytes().to_vec()];
+            out.push(c.line());
+            c.route = "c";
+            out.push(c.line());
+        }
+    }
+
+    // ---- structured: the full matrix send-set × accept-header vocabulary (one shape per cell,
+    // rotating), then accept-set × grpc-encoding vocabulary
+    let subsets = ordered_subsets();
+    let accept_vocab: Vec<&str> = vec![
+        "", "gzip", "deflate", "zstd", "identity", "gzip,deflate,zstd", "zstd,deflate,gzip", "deflate,gzip", "identity,gzip", "identity, deflate, gzip", "gzip, zstd", " gzip", "gzip ", "\tzstd\t",
+        ",gzip", "gzip,", ",,deflate,,", "GZIP", "Gzip,deflate", "gzipp,zstd", "gzi p", "gz,ip", "snappy,zstd", "zstd;q=1", "*", "deflate ,\tgzip", "gzip\u{e9}", "\u{a0}gzip", "zstd, gzip\u{2003}",
+    ];
+    let mut rot = 0usize;
+    for snd in &subsets {
+        for av in &accept_vocab {
+            let mut c = SrvCase::plain(SHAPES[rot % 4], "-", snd);
+            rot += 1;
+            c.accv = vec![av.as_bytes().to_vec()];
+            c.n = 2;
+            out.push(c.line());
+        }
+    }
+    let enc_vocab: Vec<&str> = vec!["gzip", "deflate", "zstd", "identity", "", "Gzip", "gzip ", " zstd", "gzip,deflate", "identity,gzip", "snappy", "zst", "deflat\u{e9}"];
+    for acc in &subsets {
+        for ev in &enc_vocab {
+            let mut c = SrvCase::plain(SHAPES[rot % 4], acc, "-");
+            rot += 1;
+            c.enc = vec![ev.as_bytes().to_vec()];
+            let pc = match *ev {
+                "gzip" => 'g',
+                "deflate" => 'd',
+                "zstd" => 'z',
+                _ => 'r',
+            };
+            c.frames = vec![(if pc == 'r' { 0 } else { 1 }, pc, b"\0payload payload payload".to_vec())];
+            out.push(c.line());
+        }
+    }
+    // flag × negotiated encoding × payload coding, all shapes
+    for shape in SHAPES {
+        for ev in ["", "identity", "gzip", "deflate", "zstd"] {
+            for flag in [0u8, 1, 2, 255] {
+                for pc in ['r', 'g', 'd', 'z'] {
+                    let mut c = SrvCase::plain(shape, "gdz", "g");
+                    if !ev.is_empty() {
+                        c.enc = vec![ev.as_bytes().to_vec()];
+                    }
+                    c.frames = vec![(0, 'r', b"\0first".to_vec()), (flag, pc, b"\0second message".to_vec())];
+                    out.push(c.line());
+                    c.frames.remove(0);
+                    out.push(c.line());
+                }
+            }
+        }
+    }
+    // per-response override and handler failure under every chosen encoding
+    for shape in SHAPES {
+        for snd in ["-", "g", "d", "z"] {
+            for dis in [false, true] {
+                let mut c = SrvCase::plain(shape, "-", snd);
+                c.accv = vec![b"gzip,deflate,zstd".to_vec()];
+                c.dis = dis;
+                c.n = 2;
+                out.push(c.line());
+                c.reply = false;
+                c.n = 7;
+                out.push(c.line());
+            }
+        }
+    }
+
+    // client: send × accept matrix; response encodings × accept sets × flags
+    for shape in SHAPES {
+        for snd in ["-", "g", "d", "z", "gz", "zdg"] {
+            for acc in &subsets {
+                let fr = vec![(0u8, 'r', b"\0resp".to_vec())];
+                out.push(cli_line(shape, snd, acc, &[], &[], 2, b"\0request request request", &[], None, &fr, Some(0)));
+            }
+        }
+    }
+    for acc in &subsets {
+        for ev in &enc_vocab {
+            for flag in [0u8, 1] {
+                let pc = match *ev {
+                    "gzip" => 'g',
+                    "deflate" => 'd',
+                    "zstd" => 'z',
+                    _ => 'r',
+                };
+                let pc = if flag == 0 { 'r' } else { pc };
+                let fr = vec![(flag, pc, b"\0response response".to_vec())];
+                out.push(cli_line(SHAPES[rot % 4], "-", acc, &[], &[], 1, b"\0q", &[ev.as_bytes().to_vec()], None, &fr, Some(0)));
+                rot += 1;
+            }
+        }
+    }
+    for shape in SHAPES {
+        for ev in ["", "identity", "gzip"] {
+            for hs in [None, Some(0), Some(5)] {
+                for ts in [None, Some(0), Some(9)] {
+                    for flag in [0u8, 1, 3] {
+                        let enc: Vec<Vec<u8>> = if ev.is_empty() { vec![] } else { vec![ev.as_bytes().to_vec()] };
+                        let fr = vec![(0u8, 'r', b"\0a".to_vec()), (flag, if flag == 1 { 'g' } else { 'r' }, b"\0bb".to_vec())];
+                        out.push(cli_line(shape, "g", "g", &[], &[], 1, b"\0q", &enc, hs, &fr, ts));
+                    }
+                }
+            }
+        }
+    }
+
+    // ---- random structured + malformed
+    let (ns, nc) = if thorough { (60000, 30000) } else { (5000, 2500) };
+    for _ in 0..ns {
+        out.push(srv_random(rng).line());
+    }
+    for _ in 0..nc {
+        out.push(cli_random(rng));
+    }
+
+    // ---- thorough: small-scope exhaustive — every ordered subset for send × every list of ≤ 3
+    // tokens over a 6-token alphabet with two separators
+    if thorough {
+        let alpha = ["gzip", "deflate", "zstd", "identity", "x", ""];
+        let mut lists: Vec<String> = vec![];
+        for a in alpha {
+            lists.push(a.to_string());
+            for b in alpha {
+                for sep in [",", ", "] {
+                    lists.push(format!("{a}{sep}{b}"));
+                }
+                for c in alpha {
+                    lists.push(format!("{a},{b},{c}"));
+                }
+            }
+        }
+        for snd in &subsets {
+            for l in &lists {
+                let mut c = SrvCase::plain(SHAPES[rot % 4], "-", snd);
+                rot += 1;
+                c.accv = vec![l.as_bytes().to_vec()];
+                out.push(c.line());
+            }
+        }
+    }
+    out
 }
